@@ -235,7 +235,7 @@ func (n *nativeRunner) strace(pkg string, c nativeCase) ([]string, error) {
 	os.WriteFile(cf, append(b, '\n'), 0644)
 	os.Remove(sf)
 	cmd := exec.Command("strace", "-f", "-qq", "-e",
-		"trace=openat,open,creat,unlink,unlinkat,rename,renameat,renameat2,mkdir,mkdirat,rmdir,socket,connect,bind,execve,execveat,truncate,chmod,fchmodat,symlink,symlinkat,link,linkat",
+		"trace=openat,open,creat,unlink,unlinkat,rename,renameat,renameat2,mkdir,mkdirat,rmdir,socket,connect,bind,execve,execveat,truncate,chmod,fchmodat,symlink,symlinkat,link,linkat,write",
 		"-o", sf, bin, "-test.run", "^TestZZReplay$")
 	cmd.Dir = filepath.Join(repoDir, pkg)
 	cmd.Env = append(goEnv(), "VERIF_CASES="+cf, "VERIF_OUT="+of)
@@ -250,6 +250,11 @@ func (n *nativeRunner) strace(pkg string, c nativeCase) ([]string, error) {
 	for _, l := range strings.Split(string(raw), "\n") {
 		l = straceRe.ReplaceAllString(l, "")
 		if l == "" || strings.Contains(l, "ENOENT") && strings.Contains(l, "/etc/ld.so") {
+			continue
+		}
+		// of the writes only those to standard error matter (standard output
+		// is allowed; other descriptors are the test binary's own files)
+		if strings.HasPrefix(l, "write(") && !strings.HasPrefix(l, "write(2,") {
 			continue
 		}
 		// drop the result value and addresses
@@ -756,10 +761,12 @@ func cmdCheck(args []string) {
 		*prop, *tier, len(hs), totalPaths, totalFeasible, symex.Stats.Queries, totalValidated, wall)
 	nat.cleanup()
 	switch {
+	case len(cr.violations) > 0:
+		// a violation reproduced against the native build stands, whatever
+		// else went wrong elsewhere in the run (INTERNAL lines are printed)
+		os.Exit(1)
 	case len(cr.internal) > 0:
 		os.Exit(3)
-	case len(cr.violations) > 0:
-		os.Exit(1)
 	}
 	os.Exit(0)
 }
